@@ -218,6 +218,10 @@ def handle : List String → String
     | .ok t => match read t with
       | .ok g' => "ok " ++ unwords (dumpGeo g' ++ dumpNames g')
       | .error e => "exc " ++ e.toString
+  | "canon" :: ts => withGeo ts fun g => "ok " ++ unwords (dumpGeo (canonGeo g) ++ dumpNames (canonGeo g))
+  | "wf" :: ts => withGeo ts fun g =>
+    let b (x : Bool) : String := if x then "1" else "0"
+    "ok " ++ b (WF g) ++ " " ++ b (LayerCentresKept g) ++ " " ++ b (StableSurfaces g)
   | _ => "bad-op"
 
 def main : IO Unit := serve handle
